@@ -41,7 +41,7 @@ try:
         res["demo_patched_tail"] = (r.stdout + r.stderr).strip()[-300:]
         for c in checks:
             e2 = dict(os.environ, VERIF_REPO=wt, VERIF_OUT=scratch, VERIF_DRV=os.path.join(scratch, "drv"))
-            r = sh(f"cd {HOME} && ./check {c} --no-audit", env=e2)
+            r = sh(f"cd {HOME} && timeout 1800 ./check {c} --no-audit", env=e2)
             lines = [l for l in r.stdout.splitlines() if "VIOLATION" in l or "KNOWN" in l or "seed=" in l]
             detail = ""
             for l in lines:
